@@ -127,13 +127,11 @@ func c17GroupErrorOnly(c *Check, a *Anchors) {
 		return
 	}
 	var closer *FuncBody
-	for _, l := range wrap.Lits() {
-		if l.Type.Params != nil && l.Type.Params.NumFields() == 1 {
-			closer = l
-		}
+	for _, cb := range closerBodies(c, wrap) {
+		closer = cb.body
 	}
 	if closer == nil {
-		c.Errorf("group-error-only: closer closure not found")
+		c.Errorf("group-error-only: the CloseFunc returned by Group.WrapWriter is neither a function literal nor a method value")
 		return
 	}
 	fn := c.P.SSAFunc(closer)
@@ -152,6 +150,9 @@ func c17GroupErrorOnly(c *Check, a *Anchors) {
 	rows := 0
 	for _, p := range pe.Paths {
 		eo, eok := atomWith(p.Asg, "ErrorOnly")
+		if !eok {
+			eo, eok = atomWith(p.Asg, "errorOnly") // the flag copied into a field of a closer object
+		}
 		en, enk := atomWith(p.Asg, "nil(param:")
 		errorOnly, okE := p.Asg[eo], eok
 		errNil, okN := p.Asg[en], enk
@@ -377,4 +378,64 @@ func c17PrefixLineComplete(c *Check, a *Anchors) {
 		bad = bad[:3]
 	}
 	c.Decide(len(bad) == 0, "prefix-line-complete", "table@"+fnDisplay(fb), fb.Decl.Pos(), fmt.Sprintf("holds for all %d emissions on %d paths", n, len(pe.Paths)), strings.Join(bad, " || "))
+}
+
+type closerBody struct {
+	body   *FuncBody
+	fields map[string]*types.Var // for a method-value closer: receiver field -> variable of WrapWriter it was initialised from
+}
+
+// closerBodies resolves the CloseFunc a WrapWriter returns: a function literal, or a method value x.m whose receiver x is
+// built by a composite literal in WrapWriter (the closure turned into a method of a small closer type).
+func closerBodies(c *Check, wrap *FuncBody) []closerBody {
+	info := wrap.Info()
+	var out []closerBody
+	for _, r := range returnsOf(wrap.Body) {
+		if len(r.Results) != 3 {
+			continue
+		}
+		switch x := ast.Unparen(r.Results[2]).(type) {
+		case *ast.FuncLit:
+			out = append(out, closerBody{body: c.P.LitBody(x)})
+		case *ast.SelectorExpr:
+			fn, ok := info.Uses[x.Sel].(*types.Func)
+			if !ok {
+				continue
+			}
+			d := c.P.DeclOf(fn)
+			if d == nil {
+				continue
+			}
+			cb := closerBody{body: d, fields: map[string]*types.Var{}}
+			if v := varOf(info, x.X); v != nil {
+				for _, def := range defsOf(info, wrap.Body, v) {
+					def = ast.Unparen(def)
+					if u, ok := def.(*ast.UnaryExpr); ok {
+						def = ast.Unparen(u.X)
+					}
+					if cl, ok := def.(*ast.CompositeLit); ok {
+						for _, e := range cl.Elts {
+							if kv, ok := e.(*ast.KeyValueExpr); ok {
+								if id, ok := kv.Key.(*ast.Ident); ok {
+									if fv := varOf(info, kv.Value); fv != nil {
+										cb.fields[id.Name] = fv
+									}
+								}
+							}
+						}
+					}
+				}
+			}
+			out = append(out, cb)
+		case *ast.Ident:
+			if v := varOf(info, x); v != nil {
+				for _, def := range defsOf(info, wrap.Body, v) {
+					if fl, ok := ast.Unparen(def).(*ast.FuncLit); ok {
+						out = append(out, closerBody{body: c.P.LitBody(fl)})
+					}
+				}
+			}
+		}
+	}
+	return out
 }
